@@ -55,6 +55,10 @@ type Program struct {
 
 	// Deps maps every loaded package path (module and dependencies) to its types.
 	Deps map[string]*types.Package
+	// DepSyntax maps every loaded package path to its parsed files.
+	DepSyntax map[string][]*ast.File
+	// OverlaySrc is the overlay the program was loaded with (control mutants).
+	OverlaySrc map[string][]byte
 }
 
 // Load loads ./... of RepoDir with all dependencies from source, type-checks
@@ -105,18 +109,21 @@ func Load(overlay map[string][]byte) (*Program, error) {
 	prog.Build()
 
 	p := &Program{
-		Fset:     pkgs[0].Fset,
-		Pkgs:     pkgs,
-		ByPath:   map[string]*packages.Package{},
-		SSA:      prog,
-		SSAPkg:   map[string]*ssa.Package{},
-		AllFuncs: map[*ssa.Function]bool{},
-		fileOf:   map[*token.File]*ast.File{},
-		Deps:     map[string]*types.Package{},
+		Fset:       pkgs[0].Fset,
+		Pkgs:       pkgs,
+		ByPath:     map[string]*packages.Package{},
+		SSA:        prog,
+		SSAPkg:     map[string]*ssa.Package{},
+		AllFuncs:   map[*ssa.Function]bool{},
+		fileOf:     map[*token.File]*ast.File{},
+		Deps:       map[string]*types.Package{},
+		DepSyntax:  map[string][]*ast.File{},
+		OverlaySrc: overlay,
 	}
 	packages.Visit(pkgs, nil, func(pk *packages.Package) {
 		if pk.Types != nil {
 			p.Deps[pk.PkgPath] = pk.Types
+			p.DepSyntax[pk.PkgPath] = pk.Syntax
 		}
 	})
 	for i, pk := range pkgs {
